@@ -1625,6 +1625,20 @@ func reverseDetail(c *Checker, R string, fn *ssa.Function, ranges []mapRange) {
 		return isC && k == "." && canon(bo.X) == canon(cleaned)
 	})
 	notRoot := append(neT, eqF...)
+	// the path made relative is the absolute form of the argument; the io/fs validity test looks at the cleaned path
+	for _, ci := range callsTo(fn, func(o *types.Func) bool { return isFunc(o, "path/filepath", "Rel") }) {
+		a := canon(ci.Common().Args[1])
+		fromAbs := false
+		if ex, ok := a.(*ssa.Extract); ok {
+			if ac, ok := ex.Tuple.(*ssa.Call); ok && isFunc(calleeObj(ac), "path/filepath", "Abs") {
+				fromAbs = true
+			}
+		}
+		c.check(fromAbs, R, name, "the absolute form of the path is made relative", p.Pos(ci.Pos()), "filepath.Rel(root, filepath.Abs result)", "the path handed to filepath.Rel is not the absolute form of the argument: a relative spelling of a path inside a package cannot be made relative to the absolute root and is refused")
+	}
+	for _, ci := range callsTo(fn, func(o *types.Func) bool { return isFunc(o, "io/fs", "ValidPath") }) {
+		c.check(canon(ci.Common().Args[0]) == canon(cleaned), R, name, "path validity tested on the cleaned path from the root", p.Pos(ci.Pos()), "fs.ValidPath(the value that is cut)", "fs.ValidPath is applied to something other than the cleaned path from the root (the caller's spelling, the absolute path): every path is refused")
+	}
 	// the sub-path validity test looks at what follows the first segment, not at the directory name too
 	for _, ci := range callsIn(fn) {
 		g := ci.Common().StaticCallee()
@@ -2408,7 +2422,7 @@ func ruleBuilderAbsDir(id string) func(*Checker) {
 					return
 				}
 				fa, ok := st.Addr.(*ssa.FieldAddr)
-				if !ok || !isNamedT(derefType(fa.X.Type()), "Builder") || fieldOf(fa) == nil || fieldOf(fa).Name() != "targetDir" {
+				if !ok || fieldOf(fa) == nil || !((isNamedT(derefType(fa.X.Type()), "Builder") && fieldOf(fa).Name() == "targetDir") || (isNamedT(derefType(fa.X.Type()), "Bundle") && fieldOf(fa).Name() == "rootDir")) {
 					return
 				}
 				if _, isC := st.Val.(*ssa.Const); isC {
@@ -2421,7 +2435,7 @@ func ruleBuilderAbsDir(id string) func(*Checker) {
 						viaAbs = true
 					}
 				}
-				c.check(viaAbs, id, p.FuncName(fn), "targetDir made absolute", p.Pos(st.Pos()), "filepath.Abs", "the builder's directory is stored without passing through filepath.Abs: given a relative directory it follows the working directory")
+				c.check(viaAbs, id, p.FuncName(fn), fieldOf(fa).Name()+" made absolute", p.Pos(st.Pos()), "filepath.Abs", "the builder's directory is stored without passing through filepath.Abs: given a relative directory it follows the working directory")
 			})
 		}
 		_ = n
@@ -2447,7 +2461,27 @@ func ruleNameAgreement(id string, pkgs ...string) func(*Checker) {
 			name     string
 			siblings []string
 		}
-		source := func(v ssa.Value, fn *ssa.Function) (named, bool) {
+		var source func(v ssa.Value, fn *ssa.Function) (named, bool)
+		depth := 0
+		source = func(v ssa.Value, fn *ssa.Function) (named, bool) {
+			// a value run through a one-argument function (a sanitiser, a cleaner) keeps the name of what went in
+			if depth < 2 {
+				var cl *ssa.Call
+				switch y := canon(v).(type) {
+				case *ssa.Extract:
+					if y.Index == 0 {
+						cl, _ = y.Tuple.(*ssa.Call)
+					}
+				case *ssa.Call:
+					cl = y
+				}
+				if cl != nil && len(cl.Call.Args) == 1 && types.Identical(cl.Call.Args[0].Type(), v.Type()) {
+					depth++
+					r, ok := source(cl.Call.Args[0], fn)
+					depth--
+					return r, ok
+				}
+			}
 			switch x := canon(v).(type) {
 			case *ssa.Parameter:
 				out := named{name: x.Name()}
@@ -2518,6 +2552,17 @@ func ruleNameAgreement(id string, pkgs ...string) func(*Checker) {
 					// an accessor: a method whose name is like a field of its receiver
 					if fn.Signature.Recv() == nil || len(x.Results) != 1 || fn.Object() == nil {
 						return
+					}
+					// ... or one that delegates to a method of a field: then to the method of its own name
+					if cl, ok := canon(x.Results[0]).(*ssa.Call); ok && !cl.Call.IsInvoke() && len(cl.Call.Args) == 1 && loadedField(cl.Call.Args[0]) != nil {
+						if g := cl.Common().StaticCallee(); g != nil && g.Signature.Recv() != nil && g.Name() != fn.Object().Name() {
+							ms := types.NewMethodSet(g.Signature.Recv().Type())
+							for i := 0; i < ms.Len(); i++ {
+								if m, ok := ms.At(i).Obj().(*types.Func); ok && m.Name() == fn.Object().Name() && types.Identical(m.Type().(*types.Signature).Results(), g.Signature.Results()) {
+									c.fail(id, name, "accessor delegates to "+g.Name(), p.Pos(x.Pos()), "the method "+fn.Object().Name()+" answers with "+g.Name()+"() of its field, although that field has a "+m.Name()+"() of the same result type: it returns something else than it is named for")
+								}
+							}
+						}
 					}
 					if src, ok := source(x.Results[0], fn); ok {
 						if _, isPrm := canon(x.Results[0]).(*ssa.Parameter); isPrm {
